@@ -50,6 +50,7 @@ GhostInit(S) ==
    acc |-> EmptyFn,      \* key hash -> accesses delivered to the sketch in the current ageing window (system-level C14)
    accTotal |-> 0,       \* recorded accesses in the current window (TinyLFU::total_increments)
    evw |-> EmptyFn,      \* evicting actor -> id of the store entry its key had when it removed the key id from key_weights
+   badw |-> {},          \* key ids for which a weight update larger than the one the call implies was sent (no D2 credit for those)
    delAcc |-> FALSE,     \* a delete was acknowledged as accepted in this run
    mine |-> EmptyFn,     \* actor -> the expiry the entry had right after that actor's own last store write (its in-place upsert, the worker's put)
    loose |-> FALSE,      \* (lock-grain traces) a span with several effects was seen: only the state-level judges are evaluated from here on
@@ -188,6 +189,9 @@ PhantomPressure(S, a) ==
 GhostNext(G, S, a, site, inp, S2, o) ==
   LET L == S.lc[a]
       G0 == [G EXCEPT !.lookups = IF site = "C_Get" THEN @ + 1 ELSE @,
+                      !.badw = IF IsCaller(a) /\ site = "C_Send" /\ o.sync /\ o.op.op = "pou" /\ ~HasW(o.op) /\ L.cmd.kind = "upd"
+                                  /\ \E i \in DOMAIN o.ev : o.ev[i].e = "send" /\ o.ev[i].f[2] = 4 /\ o.ev[i].f[4] > L.cmd.w
+                               THEN @ \cup {L.cmd.id} ELSE @,
                       !.delAcc = @ \/ \E n \in NewlyDone(S, S2) : S2.ack[n].st = StAccepted /\ n \in DOMAIN G.ackop
                                                                      /\ G.ackop[n] \in DOMAIN G.ops /\ G.ops[G.ackop[n]].kind = "del",
                       !.desync = LET base == IF site \in {"W_Recv", "C_Idle", "S_Tick", "R_Recv"} THEN @ \ {a} ELSE @
@@ -251,7 +255,7 @@ GhostNext(G, S, a, site, inp, S2, o) ==
                             !.obs = IF a \in DOMAIN @ THEN Without(@, a) ELSE @] ELSE G7
       \* D2: running sum (clamped at 0) of weight updates applied to charged ids
       G9 == IF site = "K_Update"
-            THEN LET changed == {id \in DOMAIN S.kw \cap DOMAIN S2.kw : S.kw[id].w # S2.kw[id].w}   \* (observed, not predicted)
+            THEN LET changed == {id \in (DOMAIN S.kw \cap DOMAIN S2.kw) \ G.badw : S.kw[id].w # S2.kw[id].w}   \* (observed, not predicted)
                  IN [G8 EXCEPT !.credit = [id \in DOMAIN @ \cup changed |->
                                              IF id \in changed THEN Max2(0, Get(@, id, 0) + (S2.kw[id].w - S.kw[id].w)) ELSE @[id]]]
             ELSE G8
@@ -569,6 +573,9 @@ J_C08(S, a, site, inp, S2, o, G, G2) ==
                      THEN <<V("C08", "violation", "", "upsert of an absent key queued a put with a different weight")>> ELSE <<>>)
             ELSE (IF HasW(op) /\ op.w < 1000000 /\ (f[2] # 4 \/ f[4] # op.w)
                   THEN <<V("C08", "violation", "", "the explicitly requested weight was not sent to the worker")>> ELSE <<>>)
+                 \o (IF ~HasW(op) /\ f[2] = 4 /\ L.cmd.kind = "upd" /\ L.cmd.w < 1000000 /\ f[4] # L.cmd.w
+                     THEN <<V("C08", "violation", "", "the weight sent for an upsert without explicit weight is not the one its change implies (entry weight, or the key's weight adjusted by the size of an expiry-index entry)")>>
+                     ELSE <<>>)
     [] site = "C_PouWeightOf" /\ IsCaller(a) /\ HasW(op) /\ o.next = "C_Idle" /\ ~o.ret.panic ->
          <<V("C08", "violation", "", "an explicitly requested weight was dropped"),
            V("C11", "violation", "", "a write the API accepted was neither queued nor applied (a weight update answered on the spot): the calls are not applied in the order they were made")>>
